@@ -13,7 +13,7 @@ All(t) == \A i \in DOMAIN t : t[i]
 Verdict == IF tid > 0 /\ status = "ok" THEN PrintT(<<"ACCEPT", tid>>) ELSE TRUE
 Mark(ok) == status' = IF ok THEN status ELSE "rej"
 
-Obs(p) == [iv |-> [pid |-> p.pid, alive |-> p.alive, tag |-> p.tag, age |-> p.age], pv |-> [ptag |-> p.ptag], npid |-> p.npid]
+Obs(p) == [iv |-> [pid |-> p.pid, alive |-> p.alive, tag |-> p.tag, age |-> p.age, mark |-> p.mark], pv |-> [ptag |-> p.ptag], npid |-> p.npid]
 WellShaped(p) == \A i \in 1..Len(p.lens) : p.lens[i] = Len(p.pid)
 Invs(s) == <<Check("inv.pids_increasing", PidsIncreasing(s)), Check("inv.pid_ge_index", PidGeIndex(s)),
              Check("inv.pid_below_npid", PidsBelowNpid(s)), Check("inv.values_follow_particle", TagFollows(s))>>
@@ -31,7 +31,9 @@ TAppend  == Is("append") /\ Step("append", Append_(st, Ev.k, Ev.ages))
 TKill    == Is("kill") /\ Step("kill", IF Ev.i + 1 \in 1..Len_(st) THEN Kill_(st, Ev.i + 1) ELSE st)
 TCompact == Is("compactify") /\ Step("compactify", Compactify_(st))
 TIncAge  == Is("incage") /\ Step("incage", IncAge_(st))
-Next == Setup \/ Eof \/ TAppend \/ TKill \/ TCompact \/ TIncAge
+TCopy    == Is("copyage") /\ Step("copyage", CopyAge_(st))
+TBump    == Is("bump") /\ Step("bump", IF Ev.i + 1 \in 1..Len_(st) THEN Bump_(st, Ev.i + 1) ELSE st)
+Next == TCopy \/ TBump \/ Setup \/ Eof \/ TAppend \/ TKill \/ TCompact \/ TIncAge
 Spec == Init /\ [][Next]_vars
 Accepted == TLCGet("stats").diameter - 1 = Len(Tr)
 =============================================================================
